@@ -450,24 +450,27 @@ class LinkLayerDecryptor:
         for i, skd in enumerate(self.master_skd):
             for key in self.keys:
 
-                if key not in self.managers:
+                # One manager (and its packet counters) per key and session
+                # material: a key may be reused with fresh SKD/IV values.
+                session = (key, i)
+                if session not in self.managers:
                     manager = LinkLayerCryptoManager(key, skd,
                                                      self.master_iv[i], self.slave_skd[i],
                                                      self.slave_iv[i])
                 else:
-                    manager = self.managers[key]
+                    manager = self.managers[session]
 
                 plaintext, success = manager.decrypt(bytes(packet)[4:-3],
                                                      direction=BleDirection.MASTER_TO_SLAVE)
                 if success:
                     manager.increment_master_counter()
-                    self.managers[key] = manager
+                    self.managers[session] = manager
                 else:
                     plaintext, success = manager.decrypt(bytes(packet)[4:-3],
                                                          direction=BleDirection.SLAVE_TO_MASTER)
                     if success:
                         manager.increment_slave_counter()
-                        self.managers[key] = manager
+                        self.managers[session] = manager
 
                 if success:
                     decrypted_packet = BTLE_DATA(plaintext)
